@@ -42,6 +42,12 @@ structure Field where
   kind : FieldKind
   deriving Repr, Inhabited
 
+/-- `DateTimeFieldFormat.validated_value`: a date-only rule under the Excel format drops the
+" 00:00:00" Excel appends to dates -/
+def stripExcelTime (hasTime excel : Bool) (v : Str) : Str :=
+  if !hasTime && excel && decide (v.length ≥ 9) && (v.drop (v.length - 9) == " 00:00:00".toList)
+  then v.take (v.length - 9) else v
+
 /-- `validated_value` of the built-in types: `none` = `FieldValueError`.  `unsupported` when the
 cell leaves the modelled fragment of `int()`. -/
 def FieldKind.validatedValue (k : FieldKind) (v : Str) : Out (Option Value) :=
@@ -72,9 +78,7 @@ def FieldKind.validatedValue (k : FieldKind) (v : Str) : Out (Option Value) :=
   | .datetime fmt hasTime excel =>
     if !isAscii v then .error .unsupported
     else
-      let noTime := " 00:00:00".toList
-      let v' := if !hasTime && excel && v.length ≥ noTime.length && v.drop (v.length - noTime.length) == noTime
-        then v.take (v.length - noTime.length) else v
+      let v' := stripExcelTime hasTime excel v
       if hasDuplicateDirective fmt then .error .reError
       else match strptime fmt v' with
         | none => .ok none
@@ -223,15 +227,15 @@ def declareFieldIn (ty : TypeName) (info : FormatInfo) (allowEmpty : Bool)
     else if !length.validate c.length then .error .iface
     else pure (mk (.constant c))
   | .decimal => do
-    -- `data_format.decimal_separator` does not exist for Excel / ODS formats
-    if fmt == .excel || fmt == .ods then .error .attribute
+    -- Excel / ODS formats have no separator properties: the defaults apply
+    let (ds, ts) : Char × Option Char := if fmt == .excel || fmt == .ods then ('.', none) else (info.decimalSep, info.thousandsSep)
     let valid ← DecimalRange.parse rule (some defaultDecimalRangeText)
     let _ ← DecimalRange.parse lengthText
     -- the length is kept as an integer range when it is spelled with integers (C03_decimal_length)
     let len ← match Range.parse lengthText with
       | .ok r => pure r
       | .error _ => .error .unsupported
-    pure ⟨allowEmpty, len, fixed, allowed, .decimal info.decimalSep info.thousandsSep valid⟩
+    pure ⟨allowEmpty, len, fixed, allowed, .decimal ds ts valid⟩
   | .datetime => do
     if !isAscii rule then .error .unsupported
     let sf := translateLayout rule
